@@ -53,10 +53,19 @@ def gen_case(rng, size):
         if kind in ("cs", "is"):
             o["v"] = rng.choice(VALUES[s])
         ops.append(o)
-    return {"root": root, "par": par, "icls": icls, "ops": ops}
+    case = {"root": root, "par": par, "icls": icls, "ops": ops}
+    if nc > 1 and rng.random() < 0.35:
+        # some subclasses get a metaclass DERIVED from their parent's (the model is unaffected)
+        case["meta"] = sorted(rng.sample(range(1, nc), rng.randint(1, nc - 1)))
+    return case
 
 
 CORPUS = [
+    # a style subclass with a derived metaclass: the native-animation limit stays ONE global value
+    {"root": "iterm2", "par": [0, 0, 1], "icls": [1], "meta": [1, 2],
+     "ops": [{"s": "nam", "op": "cs", "t": 1, "v": 4096, "pres": 0}, {"s": "nam", "op": "cs", "t": 0, "v": 5, "pres": 0},
+             {"s": "nam", "op": "cu", "t": 2, "pres": 0}, {"s": "jq", "op": "cs", "t": 1, "v": 95, "pres": 0},
+             {"s": "rff", "op": "cs", "t": 2, "v": 0, "pres": 0}, {"s": "rm", "op": "cs", "t": 1, "v": 2, "pres": 0}]},
     # F1 shape: parent set, subclass set, subclass unset -> must follow the parent
     {"root": "kitty", "par": [0, 0], "icls": [1],
      "ops": [{"s": "rm", "op": "cs", "t": 0, "v": 1, "pres": 0}, {"s": "rm", "op": "cs", "t": 1, "v": 0, "pres": 0},
